@@ -23,7 +23,6 @@ import (
 	"fmt"
 	"io"
 	"os"
-	"path/filepath"
 	"strconv"
 	"strings"
 
@@ -101,7 +100,10 @@ func (p *inputlookupProcessor) Process(inpIqr *iqr.IQR) (*iqr.IQR, error) {
 		return nil, fmt.Errorf("inputlookupProcessor.Process: Only .csv and .csv.gz formats are currently supported")
 	}
 
-	filePath := filepath.Join(config.GetLookupPath(), filename)
+	filePath, err := config.ResolveLookupFile(filename)
+	if err != nil {
+		return nil, fmt.Errorf("inputlookupProcessor.Process: %v", err)
+	}
 
 	fd, err := os.Open(filePath)
 	if err != nil {
